@@ -201,7 +201,15 @@ func VerifC06_Programs() {
 					"KF-C06-memory-backend-creates-entries-beneath-a-file", vFileOnTheWay(before, q))
 			} else {
 				if !vIsUnder(p, q) { // the destination is not part of the source subtree
+					// content and kinds first (plain assertion), then permissions and timestamps
 					verif.Assert("copy_leaves_its_source_untouched", vSameTree(srcBefore, vSubtree(after, p)))
+					ontoItself := false
+					if _, ok := vIndex(before)[p]; ok {
+						parent := p[:len(p)-len(vlBaseName(p))-1]
+						ontoItself = q == p || q == parent
+					}
+					verif.AssertKnown("copy_leaves_its_source_untouched", vSameTreeStrict(srcBefore, vSubtree(after, p)),
+						"KF-C06-copy-of-a-file-onto-itself-restamps-it", ontoItself)
 				}
 				verif.AssertKnown("only_destination_changes", vChangesConfinedTo(before, after, q),
 					"KF-C06-memory-backend-creates-entries-beneath-a-file", vFileOnTheWay(before, q))
@@ -289,7 +297,13 @@ func VerifC06_Faults() {
 	}
 	ctx := context.Background()
 	var dst string
-	switch verif.Choice("op", 6) {
+	moved := false
+	var opErr error
+	switch verif.Choice("op", 7) {
+	case 6:
+		dst = "/d/m"
+		moved = true
+		opErr = fs.MoveWithContext(ctx, "/a/f", dst)
 	case 0:
 		dst = "/d/f"
 		_ = fs.CopyToFileWithContext(ctx, "/a/f", dst)
@@ -313,10 +327,29 @@ func VerifC06_Faults() {
 	verif.Assume(faulted)
 	verif.Assert("no_handle_left_open", rec.opens == rec.closes)
 	after := vSnapshot(rec.inner, "/")
-	verif.Assert("copy_leaves_its_source_untouched", vSameTree(vSubtree(before, "/a"), vSubtree(after, "/a")))
+	if moved {
+		// a move that fails must not have lost the file: it is still at the source or already at the destination
+		_, atSrc := vIndex(after)["/a/f"]
+		_, atDst := vIndex(after)[dst]
+		verif.Assert("failed_or_not_a_move_never_loses_the_file", atSrc || atDst)
+		if opErr == nil {
+			verif.Assert("successful_move_arrives", atDst)
+		}
+		verif.Assert("only_source_and_destination_change", vChangesConfinedTo(before, after, "/a/f", dst))
+		return
+	}
+	verif.Assert("copy_leaves_its_source_untouched", vSameTreeStrict(vSubtree(before, "/a"), vSubtree(after, "/a")))
 	if dst != "" {
 		verif.Assert("only_destination_changes", vChangesConfinedTo(before, after, dst))
 	} else {
 		verif.Assert("query_changes_nothing", vSameTree(before, after))
 	}
+}
+
+func vlBaseName(p string) string {
+	k := len(p)
+	for k > 0 && p[k-1] != '/' {
+		k--
+	}
+	return p[k:]
 }
